@@ -19,7 +19,7 @@ for f in ('patch.diff', 'demo.py', 'notes.md'):
 notes = ' '.join(open(os.path.join(seed, 'notes.md')).read().split())
 meta = {
     'id': sid, 'property': sid[:3],
-    'origin': 'written by an independent sub-agent (second round: asked for mechanisms other than those of the first round) that saw only the '
+    'origin': 'written by an independent sub-agent (later round: asked for mechanisms other than those of the earlier rounds) that saw only the '
               'property text and its own scratch worktree of /repo (nothing from /verif)',
     'files_changed': ev.get('files'),
     'what_it_needs_to_manifest': notes[:900],
